@@ -10,9 +10,11 @@
      ARecv i app a sk                 host i polls its node's list for socket sk (cmd_epr_recv: netqasm_get_epr_recv, popleft);
                                       a delivered half is entered into qubitList under the smallest unused physical id
                                       and mapped to the virtual address a; nothing delivered: nothing changes (timeout)
-   n_pend = the per-node per-socket deques of delivered, unclaimed halves (node, socket, handle), in arrival order.
-   Abstraction: an entry carries the (ghost) handle of the virtual qubit the send created at the receiving node; the code
-   stores its virtual NUMBER and looks the object up again at poll time (remote_get_virtual_ref) -- not modelled.
+   n_pend = the per-node per-socket deques of delivered, unclaimed halves, in arrival order.  As in the code an entry
+   carries the virtual NUMBER the receiving node gave the delivered qubit (the value remote_send_qubit returned), and a
+   poll looks the qubit up again by that number (remote_get_virtual_ref = PerNodeNum.hid_of_num: first listed virtual qubit
+   with the number).  The fourth component (the handle of the delivered qubit) is GHOST: never read by nstep_r; the
+   invariant proves that the lookup returns exactly it (pending_lookup_faithful).
 
    Excluded by `clean` (and said so in the theorems): (1) a pair creation refused AFTER a temporary exists (second
    cmd_new refused or receiver refuses the half): the known defect C11:epr-temporaries, refuted in EprGate.v;
@@ -22,13 +24,18 @@
 From Coq Require Import List Bool Arith Lia.
 From SQ Require Import Base.ListUtil Stab.Tableau Net.Model Net.Refusal Net.Handles Net.Inv Net.InvNew Net.InvStep
   Net.Bookkeeping Net.Population Net.NonEmpty Net.PerNode Qasm.Exec Qasm.ExecProps Qasm.Teardown Qasm.TeardownFull
-  Qasm.EprGate Qasm.TeardownX.
+  Qasm.EprGate Qasm.PerNodeNum Qasm.TeardownX.
 Import ListNotations.
 
 Local Arguments step : simpl never.
 
 (* ---- the model ------------------------------------------------------------------------------------------------------------------- *)
-Record nst := mkN { n_net : net; n_hosts : list host; n_pend : list (nat * nat * nat) }.
+Definition pentry := (nat * nat * nat * nat)%type.          (* node, socket, virtual number, ghost handle *)
+Definition p_node (e : pentry) : nat := fst (fst (fst e)).
+Definition p_sock (e : pentry) : nat := snd (fst (fst e)).
+Definition p_num (e : pentry) : nat := snd (fst e).
+Definition p_hd (e : pentry) : nat := snd e.
+Record nst := mkN { n_net : net; n_hosts : list host; n_pend : list pentry }.
 Definition host_at (s : nst) (i : nat) : host := nth i (n_hosts s) empty_host.
 Definition ninit (caps : list (nat * nat)) : nst := mkN (init_net caps) (map (fun _ => empty_host) caps) [].
 
@@ -49,12 +56,14 @@ Definition map_addr (h : host) (app a qid : nat) : host :=
   | None => h          (* address in use / no such address: response stays pending (excluded by `clean`) *)
   end.
 (* popleft of the deque of (node i, socket sock) *)
-Fixpoint take_pend (i sock : nat) (pd : list (nat * nat * nat)) : option (nat * list (nat * nat * nat)) :=
+Fixpoint take_pend (i sock : nat) (pd : list pentry) : option (nat * nat * list pentry) :=
   match pd with
   | [] => None
-  | e :: t => if Nat.eqb (fst (fst e)) i && Nat.eqb (snd (fst e)) sock then Some (snd e, t)
-              else match take_pend i sock t with Some (hd, t') => Some (hd, e :: t') | None => None end
+  | e :: t => if Nat.eqb (p_node e) i && Nat.eqb (p_sock e) sock then Some (p_num e, p_hd e, t)
+              else match take_pend i sock t with Some (num, hd, t') => Some (num, hd, e :: t') | None => None end
   end.
+(* the number remote_send_qubit returned: the result of the last native call (the send) of a successful creation *)
+Definition sent_num (tr : ntrace) : nat := match snd (last tr (ONew 0, OkNone)) with Ok v => v | _ => 0 end.
 
 Definition nstep_r (s : nst) (x : nact) : nst * qres :=
   match x with
@@ -66,10 +75,10 @@ Definition nstep_r (s : nst) (x : nact) : nst * qres :=
   | ACreate i app a known r adj rsock =>
       if Nat.ltb i (length (n_hosts s)) then
         let qid := fresh_id (h_used (host_at s i)) in
-        let '(s1, res, _) := cmd_epr_keep i (mkQ (n_net s) (host_at s i)) known r adj qid in
+        let '(s1, res, tr) := cmd_epr_keep i (mkQ (n_net s) (host_at s i)) known r adj qid in
         match res with
         | RDone None => (mkN (q_net s1) (upd (n_hosts s) i (map_addr (q_host s1) app a qid))
-                          (n_pend s ++ [(r, rsock, pred (next_hid (q_net s1)))]), res)
+                          (n_pend s ++ [(r, rsock, sent_num tr, pred (next_hid (q_net s1)))]), res)
         | _ => (mkN (q_net s1) (upd (n_hosts s) i (q_host s1)) (n_pend s), res)
         end
       else (s, RErr)
@@ -77,13 +86,17 @@ Definition nstep_r (s : nst) (x : nact) : nst * qres :=
       if Nat.ltb i (length (n_hosts s)) then
         match take_pend i sock (n_pend s) with
         | None => (s, RErr)                                                        (* TimeoutError *)
-        | Some (hd, pd') =>
-            let h := host_at s i in
-            let qid := fresh_id (h_used h) in
-            match plookup (PP qid) (h_qlist h) with
-            | Some _ => (mkN (n_net s) (n_hosts s) pd', RErr)                        (* "Qubit with ID ... already in use" *)
-            | None => (mkN (n_net s) (upd (n_hosts s) i (map_addr (with_qlist h (pset (PP qid) hd (h_qlist h))) app a qid)) pd',
-                       RDone None)
+        | Some (num, _, pd') =>
+            match hid_of_num (nth_node (n_net s) i) num with
+            | None => (mkN (n_net s) (n_hosts s) pd', RErr)                          (* remote_get_virtual_ref found nothing *)
+            | Some hd =>
+                let h := host_at s i in
+                let qid := fresh_id (h_used h) in
+                match plookup (PP qid) (h_qlist h) with
+                | Some _ => (mkN (n_net s) (n_hosts s) pd', RErr)                    (* "Qubit with ID ... already in use" *)
+                | None => (mkN (n_net s) (upd (n_hosts s) i (map_addr (with_qlist h (pset (PP qid) hd (h_qlist h))) app a qid)) pd',
+                           RDone None)
+                end
             end
         end
       else (s, RErr)
@@ -110,19 +123,20 @@ Fixpoint cleans (s : nst) (xs : list nact) : Prop :=
   match xs with [] => True | x :: t => clean s x /\ cleans (nstep s x) t end.
 
 (* ---- small facts ------------------------------------------------------------------------------------------------------------------ *)
-Definition pend_at (pd : list (nat * nat * nat)) (i : nat) : list nat :=
-  map snd (filter (fun e => Nat.eqb (fst (fst e)) i) pd).
+Definition pend_at (pd : list pentry) (i : nat) : list nat :=
+  map p_hd (filter (fun e => Nat.eqb (p_node e) i) pd).
 
 Lemma pend_at_app pd1 pd2 i : pend_at (pd1 ++ pd2) i = pend_at pd1 i ++ pend_at pd2 i.
 Proof. unfold pend_at. rewrite filter_app, map_app. reflexivity. Qed.
 
-Lemma take_pend_spec i sock pd hd pd' : take_pend i sock pd = Some (hd, pd') ->
-  exists l1 l2, pd = l1 ++ (i, sock, hd) :: l2 /\ pd' = l1 ++ l2.
+Lemma take_pend_spec i sock pd num hd pd' : take_pend i sock pd = Some (num, hd, pd') ->
+  exists l1 l2, pd = l1 ++ (i, sock, num, hd) :: l2 /\ pd' = l1 ++ l2.
 Proof.
-  revert pd'. induction pd as [|[[n k] h] t IH]; intros pd'; simpl; [discriminate|].
+  revert pd'. induction pd as [|[[[n k] m] h] t IH]; intros pd'; simpl; [discriminate|].
+  unfold p_node, p_sock, p_num, p_hd. cbn [fst snd].
   destruct (Nat.eqb_spec n i) as [->|N1]; destruct (Nat.eqb_spec k sock) as [->|N2]; simpl.
   1: { intro H; inversion H; subst. eexists [], _. split; reflexivity. }
-  all: destruct (take_pend i sock t) as [[hd0 t']|]; [|discriminate]; intro H; inversion H; subst;
+  all: destruct (take_pend i sock t) as [[[num0 hd0] t']|]; [|discriminate]; intro H; inversion H; subst;
        destruct (IH t' eq_refl) as (l1 & l2 & E1 & E2); eexists (_ :: l1), l2; subst; split; reflexivity.
 Qed.
 
@@ -147,6 +161,16 @@ Proof.
   - f_equal. apply IH. intro; apply H; simpl; auto.
 Qed.
 
+Lemma filter_drop_last_vn (l : list (nat * nat)) n1 a1 n2 a2 : ~ In a2 (map snd l) -> a1 <> a2 ->
+  filter (fun p => negb (Nat.eqb (snd p) a2)) (l ++ [(n1, a1); (n2, a2)]) = l ++ [(n1, a1)].
+Proof.
+  intros H N. rewrite filter_app. cbn [filter snd]. rewrite Nat.eqb_refl. cbn [negb].
+  destruct (Nat.eqb_spec a1 a2); [contradiction|]. cbn [negb]. f_equal.
+  induction l as [|x t IH]; simpl; auto. destruct (Nat.eqb_spec (snd x) a2); simpl.
+  - exfalso. apply H. simpl; auto.
+  - f_equal. apply IH. intro; apply H; simpl; auto.
+Qed.
+
 Lemma cmd_new_ok i s p s1 t1 : cmd_new i s p = (s1, true, t1) ->
   exists v, step (q_net s) (ONew i) = (q_net s1, Ok v) /\
             q_host s1 = with_qlist (q_host s) (pset p (next_hid (q_net s)) (h_qlist (q_host s))) /\ t1 = [(ONew i, Ok v)].
@@ -161,7 +185,7 @@ Proof.
   destruct o; intro H; inversion H; subst; (split; [rewrite NOK by (intros; discriminate); destruct s; reflexivity|]);
     intros v [X|[]]; inversion X.
 Qed.
-Lemma native_eq s o s1 r t : native s o = (s1, r, t) -> step (q_net s) o = (q_net s1, r) /\ q_host s1 = q_host s.
+Lemma native_eq s o s1 r t : native s o = (s1, r, t) -> step (q_net s) o = (q_net s1, r) /\ q_host s1 = q_host s /\ t = [(o, r)].
 Proof. unfold native. destruct (step (q_net s) o) as [n' r']. intro H. inversion H; subst. auto. Qed.
 
 Lemma cmd_epr_keep_net_run i s known r adj qid :
@@ -214,14 +238,20 @@ Lemma epr_keep_effect i s known r adj qid s' tr :
   hn (nth_node (q_net s') i) = hn (nth_node (q_net s) i) ++ [a1] /\
   hn (nth_node (q_net s') r) = hn (nth_node (q_net s) r) ++ [x] /\
   (forall j, j <> i -> j <> r -> hn (nth_node (q_net s') j) = hn (nth_node (q_net s) j)) /\
-  length (nodes (q_net s')) = length (nodes (q_net s)).
+  length (nodes (q_net s')) = length (nodes (q_net s)) /\
+  (* the same at the level of (virtual number, handle): the receiving node lists the half under the number the send
+     returned, and that number was not in use there *)
+  (exists n1, vn (nth_node (q_net s') i) = vn (nth_node (q_net s) i) ++ [(n1, a1)]) /\
+  vn (nth_node (q_net s') r) = vn (nth_node (q_net s) r) ++ [(sent_num tr, x)] /\
+  ~ In (sent_num tr) (map fst (vn (nth_node (q_net s) r))) /\
+  (forall j, j <> i -> j <> r -> vn (nth_node (q_net s') j) = vn (nth_node (q_net s) j)).
 Proof.
   intros G0 KK. unfold cmd_epr_keep.
   destruct (negb (epr_gate known i r adj)) eqn:G; [discriminate|].
   apply negb_false_iff in G. apply epr_gate_iff in G as (_ & Nr & _).
   destruct (cmd_new i s (PP qid)) as [[s1 [|]] t1] eqn:C1; cbn [negb]; [|discriminate].
   destruct (cmd_new i s1 (PM qid)) as [[s2 [|]] t2] eqn:C2; cbn [negb]; [|discriminate].
-  apply cmd_new_ok in C1 as (v1 & S1 & Q1 & _). apply cmd_new_ok in C2 as (v2 & S2 & Q2 & _).
+  apply cmd_new_ok in C1 as (v1 & S1 & Q1 & TT1). apply cmd_new_ok in C2 as (v2 & S2 & Q2 & TT2).
   set (a1 := next_hid (q_net s)) in *. set (a2 := next_hid (q_net s1)) in *.
   assert (V1 : virt_of (q_host s2) (PP qid) = Some a1).
   { unfold virt_of. rewrite Q2. cbn [h_qlist with_qlist]. rewrite plookup_pset_neq by discriminate.
@@ -231,7 +261,7 @@ Proof.
   rewrite V1, V2.
   destruct (native s2 (OGate1 a1 NH)) as [[s3 r3] t3] eqn:C3. destruct (native s3 (OGate2 a1 a2 NCnot)) as [[s4 r4] t4] eqn:C4.
   destruct (native s4 (OSend a2 r)) as [[s5 r5] t5] eqn:C5.
-  apply native_eq in C3 as [S3 Q3]. apply native_eq in C4 as [S4 Q4]. apply native_eq in C5 as [S5 Q5].
+  apply native_eq in C3 as (S3 & Q3 & TT3). apply native_eq in C4 as (S4 & Q4 & TT4). apply native_eq in C5 as (S5 & Q5 & TT5).
   destruct r5 as [v5| | |]; try discriminate. intro H. inversion H; subst s' tr. clear H. cbn [q_net q_host].
   (* the network, step by step *)
   assert (E1 : q_net s1 = fst (step (q_net s) (ONew i))) by (rewrite S1; reflexivity).
@@ -285,9 +315,41 @@ Proof.
     intro Hin. pose proof (hn_lt _ _ _ (proj1 G0) Hin). fold a1 in H. lia. }
   split.
   { rewrite HN5. destruct (Nat.eqb_spec r i); [contradiction|]. rewrite Nat.eqb_refl. rewrite HJ4 by exact Nr. reflexivity. }
-  split; [|lia].
-  intros j Nj Njr. rewrite HN5. destruct (Nat.eqb_spec j i); [contradiction|]. destruct (Nat.eqb_spec j r); [contradiction|].
-  apply HJ4. exact Nj.
+  split.
+  { intros j Nj Njr. rewrite HN5. destruct (Nat.eqb_spec j i); [contradiction|]. destruct (Nat.eqb_spec j r); [contradiction|].
+    apply HJ4. exact Nj. }
+  split; [lia|].
+  (* numbers *)
+  assert (SN : sent_num (t1 ++ t2 ++ t3 ++ t4 ++ t5) = v5).
+  { unfold sent_num. subst t5. rewrite !app_assoc. rewrite last_last. reflexivity. }
+  rewrite SN.
+  assert (VN1 : forall j, vn (nth_node (q_net s1) j) = if Nat.eqb j i then vn (nth_node (q_net s) i) ++ [(v1, a1)] else vn (nth_node (q_net s) j)).
+  { intro j. rewrite E1. apply (step_new_vn (q_net s) i v1 j). rewrite S1. reflexivity. }
+  assert (VN2 : forall j, vn (nth_node (q_net s2) j) = if Nat.eqb j i then vn (nth_node (q_net s1) i) ++ [(v2, a2)] else vn (nth_node (q_net s1) j)).
+  { intro j. rewrite E2. apply (step_new_vn (q_net s1) i v2 j). rewrite S2. reflexivity. }
+  assert (VN3 : forall j, vn (nth_node (q_net s3) j) = vn (nth_node (q_net s2) j)).
+  { intro j. rewrite E3. apply (step_quiet_vn (q_net s2) (OGate1 a1 NH) j eq_refl). }
+  assert (VN4 : forall j, vn (nth_node (q_net s4) j) = vn (nth_node (q_net s3) j)).
+  { intro j. rewrite E4. apply (step_quiet_vn (q_net s3) (OGate2 a1 a2 NCnot) j eq_refl). }
+  assert (VI4 : vn (nth_node (q_net s4) i) = vn (nth_node (q_net s) i) ++ [(v1, a1); (v2, a2)]).
+  { rewrite VN4, VN3, VN2, Nat.eqb_refl, VN1, Nat.eqb_refl, <- app_assoc. reflexivity. }
+  assert (VJ4 : forall j, j <> i -> vn (nth_node (q_net s4) j) = vn (nth_node (q_net s) j)).
+  { intros j Nj. rewrite VN4, VN3, VN2. destruct (Nat.eqb_spec j i); [contradiction|]. rewrite VN1.
+    destruct (Nat.eqb_spec j i); [contradiction|reflexivity]. }
+  destruct (step_send_vn (q_net s4) a2 r v5 i vq 0 OK5 F Nir) as [_ FR5].
+  assert (VN5 : forall j, vn (nth_node (q_net s5) j) =
+                          if Nat.eqb j i then filter (fun p => negb (Nat.eqb (snd p) a2)) (vn (nth_node (q_net s4) i))
+                          else if Nat.eqb j r then vn (nth_node (q_net s4) r) ++ [(v5, next_hid (q_net s4))] else vn (nth_node (q_net s4) j)).
+  { intro j. rewrite E5. apply (step_send_vn (q_net s4) a2 r v5 i vq j OK5 F Nir). }
+  split.
+  { exists v1. rewrite VN5, Nat.eqb_refl, VI4. apply filter_drop_last_vn; [|lia].
+    rewrite <- hn_vn. intro Hin. pose proof (hn_lt _ _ _ (proj1 G0) Hin). fold a1 in H. lia. }
+  split.
+  { rewrite VN5. destruct (Nat.eqb_spec r i); [contradiction|]. rewrite Nat.eqb_refl. rewrite VJ4 by exact Nr. reflexivity. }
+  split.
+  { rewrite <- (VJ4 r Nr). exact FR5. }
+  intros j Nj Njr. rewrite VN5. destruct (Nat.eqb_spec j i); [contradiction|]. destruct (Nat.eqb_spec j r); [contradiction|].
+  apply VJ4. exact Nj.
 Qed.
 
 (* ---- the global invariant ---------------------------------------------------------------------------------------------------------- *)
@@ -295,8 +357,13 @@ Record ninv (s : nst) : Prop := mkNinv {
   g_len : length (n_hosts s) = length (nodes (n_net s));
   g_ginv : ginv (n_net s);
   g_host : forall i, i < length (n_hosts s) -> tinvx i (pend_at (n_pend s) i) (mkQ (n_net s) (host_at s i));
-  g_leak : forall i, i < length (n_hosts s) -> leakfree (mkQ (n_net s) (host_at s i))
+  g_leak : forall i, i < length (n_hosts s) -> leakfree (mkQ (n_net s) (host_at s i));
+  (* looking an unclaimed half up by the number stored with it finds the delivered qubit itself *)
+  g_num : forall e, In e (n_pend s) -> hid_of_num (nth_node (n_net s) (p_node e)) (p_num e) = Some (p_hd e)
 }.
+
+Lemma in_pend_at pd e : In e pd -> In (p_hd e) (pend_at pd (p_node e)).
+Proof. intro H. unfold pend_at. apply in_map. apply filter_In. split; auto. apply Nat.eqb_refl. Qed.
 
 Lemma host_at_init caps i : host_at (ninit caps) i = empty_host.
 Proof. unfold host_at, ninit. cbn [n_hosts]. revert i. induction caps as [|c t IH]; intros [|i]; simpl; auto. Qed.
@@ -308,6 +375,7 @@ Proof.
   - split; [apply init_hid_inv|apply init_inv].
   - intros i Hi. rewrite host_at_init. apply (tinv_is_tinvx i (init_q caps)). apply init_tinv.
   - intros i Hi k hd H. rewrite host_at_init in H. discriminate.
+  - intros e [].
 Qed.
 
 Lemma host_at_upd_eq s n i h pd : i < length (n_hosts s) -> host_at (mkN n (upd (n_hosts s) i h) pd) i = h.
@@ -321,10 +389,11 @@ Proof. intro H. rewrite exec_net_run. apply run_hid_inv. exact H. Qed.
 (* every clean action keeps the global invariant *)
 Theorem nstep_ninv s x : ninv s -> clean s x -> ninv (nstep s x).
 Proof.
-  intros [GL GG GH GK] C. unfold nstep. destruct x as [i q|i app a known r adj rsock|i app a sock]; cbn [nstep_r].
+  intros [GL GG GH GK GN] C. unfold nstep. destruct x as [i q|i app a known r adj rsock|i app a sock]; cbn [nstep_r].
   - (* an instruction of host i *)
     destruct (Nat.ltb_spec i (length (n_hosts s))) as [Hi|Hi]; [|constructor; auto].
-    pose proof (xexec i _ _ q (GH i Hi)) as [T1 O1].
+    pose proof (xexec_v i _ _ q (GH i Hi)) as [T1 V1].
+    pose proof (vstable_hn _ _ _ _ V1) as O1.
     pose proof (xleakfree_exec i _ _ q (GH i Hi) (GK i Hi) C) as LF1.
     pose proof (exec_next_mono i (mkQ (n_net s) (host_at s i)) q (proj1 GG)) as Mo.
     pose proof (exec_net_run i (mkQ (n_net s) (host_at s i)) q) as NR.
@@ -340,6 +409,9 @@ Proof.
     + intros j Hj. rewrite upd_length in Hj. destruct (Nat.eq_dec j i) as [->|Nj].
       * rewrite host_at_upd_eq by exact Hi. destruct s'; exact LF1.
       * rewrite host_at_upd_neq by exact Nj. apply (leakfree_net (n_net s)). auto.
+    + intros e He. destruct (Nat.eq_dec (p_node e) i) as [E|Ne].
+      * rewrite E. apply (proj2 V1); [rewrite <- E; apply in_pend_at; exact He|]. rewrite <- E. apply GN. exact He.
+      * unfold hid_of_num. rewrite (proj1 V1) by exact Ne. apply GN. exact He.
   - (* pair creation by host i towards node r *)
     destruct (Nat.ltb_spec i (length (n_hosts s))) as [Hi|Hi]; [|constructor; auto].
     destruct C as [C1 C2]. cbv zeta in C1, C2.
@@ -354,7 +426,8 @@ Proof.
       { unfold addr_free in AF. destruct (alookup app (h_units (host_at s i))) as [um0|]; [|discriminate].
         destruct (nth_error um0 a) as [[p|]|] eqn:EA; inversion AF; subst; auto. }
       destruct EUA as [EU EA].
-      destruct (epr_keep_effect i qs known r adj qid s1 tr GG) as (Nr & Lr & QH & G1 & A1 & A2 & HI & HR & HJ & LL).
+      destruct (epr_keep_effect i qs known r adj qid s1 tr GG)
+        as (Nr & Lr & QH & G1 & A1 & A2 & HI & HR & HJ & LL & (n1 & VI) & VR & VF & VJ).
       { intros k hd Hk. destruct (x_keys _ _ _ Ti k hd Hk) as (p & E & _). eauto. }
       { exact CE. }
       subst qs. cbn [q_net q_host] in *.
@@ -362,15 +435,17 @@ Proof.
       { unfold map_addr, addr_free. rewrite QH. cbn [with_qlist h_units h_used h_active h_qlist]. rewrite EU, EA. reflexivity. }
       rewrite MA.
       assert (Lr' : r < length (n_hosts s)) by lia.
+      set (xh := pred (next_hid (q_net s1))) in *.
+      assert (PEr : pend_at [(r, rsock, sent_num tr, xh)] r = [xh]).
+      { unfold pend_at, p_node, p_hd. cbn [filter map fst snd]. rewrite Nat.eqb_refl. reflexivity. }
+      assert (PEo : forall j, j <> r -> pend_at [(r, rsock, sent_num tr, xh)] j = []).
+      { intros j Nj. unfold pend_at, p_node, p_hd. cbn [filter map fst snd]. destruct (Nat.eqb_spec r j); [congruence|reflexivity]. }
       constructor; cbn [n_net n_hosts n_pend fst].
       * rewrite upd_length, LL. exact GL.
       * exact G1.
       * intros j Hj. rewrite upd_length in Hj. rewrite pend_at_app.
         destruct (Nat.eq_dec j i) as [->|Nj].
-        -- rewrite host_at_upd_eq by exact Hi.
-           assert (PE : pend_at [(r, rsock, pred (next_hid (q_net s1)))] i = []).
-           { unfold pend_at. cbn [filter fst]. destruct (Nat.eqb_spec r i); [contradiction|reflexivity]. }
-           rewrite PE, app_nil_r.
+        -- rewrite host_at_upd_eq by exact Hi. rewrite PEo by congruence. rewrite app_nil_r.
            apply (xbind i (pend_at (n_pend s) i) (pend_at (n_pend s) i) (q_net s1) (mkQ (n_net s) (host_at s i)) app um a (next_hid (n_net s)));
              auto; cbn [q_net q_host]; try lia.
            ++ intro y. rewrite HI, in_app_iff. simpl. rewrite (x_own _ _ _ Ti). cbn [q_host].
@@ -380,17 +455,19 @@ Proof.
               apply (hn_lt (n_net s) i); [apply GG|]. apply (x_own _ _ _ Ti). auto.
            ++ apply (x_exnodup _ _ _ Ti).
         -- rewrite host_at_upd_neq by exact Nj. destruct (Nat.eq_dec j r) as [->|Njr].
-           ++ assert (PE : pend_at [(r, rsock, pred (next_hid (q_net s1)))] r = [pred (next_hid (q_net s1))]).
-              { unfold pend_at. cbn [filter fst]. rewrite Nat.eqb_refl. reflexivity. }
-              rewrite PE.
+           ++ rewrite PEr.
               apply (tinvx_frame_add r _ (q_net s1) (mkQ (n_net s) (host_at s r))); auto; cbn [q_net]; lia.
-           ++ assert (PE : pend_at [(r, rsock, pred (next_hid (q_net s1)))] j = []).
-              { unfold pend_at. cbn [filter fst]. destruct (Nat.eqb_spec r j); [congruence|reflexivity]. }
-              rewrite PE, app_nil_r.
+           ++ rewrite PEo by exact Njr. rewrite app_nil_r.
               apply (tinvx_frame j _ (q_net s1) (mkQ (n_net s) (host_at s j))); auto; cbn [q_net]; lia.
       * intros j Hj. rewrite upd_length in Hj. destruct (Nat.eq_dec j i) as [->|Nj].
         -- rewrite host_at_upd_eq by exact Hi. apply (leakfree_bind (n_net s)); auto.
         -- rewrite host_at_upd_neq by exact Nj. apply (leakfree_net (n_net s)). auto.
+      * intros e He. apply in_app_iff in He as [He|[He|[]]].
+        -- pose proof (GN e He) as L. unfold hid_of_num in *.
+           destruct (Nat.eq_dec (p_node e) i) as [E|Ne]; [rewrite E in *; rewrite VI; apply lookup_app_l; exact L|].
+           destruct (Nat.eq_dec (p_node e) r) as [E|Ner]; [rewrite E in *; rewrite VR; apply lookup_app_l; exact L|].
+           rewrite VJ by auto. exact L.
+        -- subst e. unfold p_node, p_num, p_hd, hid_of_num. cbn [fst snd]. rewrite VR. apply lookup_app_fresh. exact VF.
     + (* refused: no temporary was created, nothing changed *)
       assert (E : s1 = qs).
       { pose proof (epr_keep_clean_failure i qs known r adj qid) as X. rewrite CE in X. cbn [fst snd] in X. apply X; auto.
@@ -401,15 +478,17 @@ Proof.
         rewrite E; destruct s; constructor; auto.
   - (* host i polls for a delivered half *)
     destruct (Nat.ltb_spec i (length (n_hosts s))) as [Hi|Hi]; [|constructor; auto].
-    destruct (take_pend i sock (n_pend s)) as [[hd pd']|] eqn:TP; [|constructor; auto].
+    destruct (take_pend i sock (n_pend s)) as [[[num hd] pd']|] eqn:TP; [|constructor; auto].
     cbn [clean] in C. rewrite TP in C.
-    destruct (take_pend_spec _ _ _ _ _ TP) as (l1 & l2 & EP & EP').
+    destruct (take_pend_spec _ _ _ _ _ _ TP) as (l1 & l2 & EP & EP').
     pose proof (GH i Hi) as Ti.
+    assert (Hent : In (i, sock, num, hd) (n_pend s)) by (rewrite EP; apply in_or_app; right; simpl; auto).
+    pose proof (GN _ Hent) as LK. unfold p_node, p_num, p_hd in LK. cbn [fst snd] in LK. rewrite LK.
     assert (PI : pend_at (n_pend s) i = pend_at l1 i ++ hd :: pend_at l2 i).
-    { rewrite EP, pend_at_app. f_equal. unfold pend_at. cbn [filter fst]. rewrite Nat.eqb_refl. reflexivity. }
+    { rewrite EP, pend_at_app. f_equal. unfold pend_at, p_node, p_hd. cbn [filter map fst snd]. rewrite Nat.eqb_refl. reflexivity. }
     assert (PI' : pend_at pd' i = pend_at l1 i ++ pend_at l2 i) by (rewrite EP'; apply pend_at_app).
     assert (PJ : forall j, j <> i -> pend_at pd' j = pend_at (n_pend s) j).
-    { intros j Nj. rewrite EP, EP', !pend_at_app. f_equal. unfold pend_at. cbn [filter fst].
+    { intros j Nj. rewrite EP, EP', !pend_at_app. f_equal. unfold pend_at, p_node, p_hd. cbn [filter map fst snd].
       destruct (Nat.eqb_spec i j); [congruence|reflexivity]. }
     assert (NK : plookup (PP (fresh_id (h_used (host_at s i)))) (h_qlist (host_at s i)) = None).
     { destruct (plookup _ _) as [y|] eqn:Y; auto. destruct (x_keys _ _ _ Ti _ _ Y) as (p & E1 & E2).
@@ -444,6 +523,7 @@ Proof.
     + intros j Hj. rewrite upd_length in Hj. destruct (Nat.eq_dec j i) as [->|Nj].
       * rewrite host_at_upd_eq by exact Hi. apply (leakfree_bind (n_net s)); auto.
       * rewrite host_at_upd_neq by exact Nj. apply (GK j Hj).
+    + intros e He. apply GN. rewrite EP. rewrite EP' in He. apply in_app_iff in He as [He|He]; apply in_or_app; simpl; auto.
 Qed.
 
 Theorem nrun_ninv xs : forall s, ninv s -> cleans s xs -> ninv (nrun s xs).
@@ -463,8 +543,8 @@ Proof.
     destruct (cmd_epr_keep _ _ _ _ _ _) as [[s1 res] tr]. cbn [fst snd q_net] in *.
     destruct res as [[v|]| |]; cbn [fst n_net]; eauto.
   - destruct (Nat.ltb i (length (n_hosts s))); [|exists []; reflexivity].
-    destruct (take_pend i sock (n_pend s)) as [[hd pd']|]; [|exists []; reflexivity].
-    destruct (plookup _ _); exists []; reflexivity.
+    destruct (take_pend i sock (n_pend s)) as [[[num hd] pd']|]; [|exists []; reflexivity].
+    destruct (hid_of_num _ _); [|exists []; reflexivity]. destruct (plookup _ _); exists []; reflexivity.
 Qed.
 
 Theorem nrun_reachable caps xs : reachable (n_net (nrun (ninit caps) xs)).
@@ -483,8 +563,8 @@ Proof.
   - destruct (Nat.ltb i (length (n_hosts s0))); auto. destruct (exec _ _ _) as [[s' res] tr]. cbn [fst n_hosts]. apply upd_length.
   - destruct (Nat.ltb i (length (n_hosts s0))); auto. destruct (cmd_epr_keep _ _ _ _ _ _) as [[s1 res] tr].
     destruct res as [[v|]| |]; cbn [fst n_hosts]; apply upd_length.
-  - destruct (Nat.ltb i (length (n_hosts s0))); auto. destruct (take_pend _ _ _) as [[hd pd']|]; auto.
-    destruct (plookup _ _); cbn [fst n_hosts]; auto. apply upd_length.
+  - destruct (Nat.ltb i (length (n_hosts s0))); auto. destruct (take_pend _ _ _) as [[[num hd] pd']|]; auto.
+    destruct (hid_of_num _ _); auto. destruct (plookup _ _); cbn [fst n_hosts]; auto. apply upd_length.
 Qed.
 
 (* ---- the theorems ------------------------------------------------------------------------------------------------------------------ *)
@@ -586,6 +666,29 @@ Proof.
   { intros y Hy. apply (x_own _ _ _ T). apply in_app_iff in Hy as [Hy|Hy]; [left; apply IN2; exact Hy|right; exact Hy]. }
   pose proof (NoDup_incl_length ND E1) as L1. pose proof (NoDup_incl_length NA E2) as L2.
   rewrite app_length, map_length in L1, L2. lia.
+Qed.
+
+(* an unclaimed half is found again by its number: in every reachable clean state, for every entry of a receive deque, the
+   lookup the code performs at poll time (first virtual qubit of the node with the stored number) returns the very qubit
+   that was delivered; the node still holds it and no qubitList of its host refers to it *)
+Theorem pending_lookup_faithful caps xs :
+  let s := nrun (ninit caps) xs in
+  cleans (ninit caps) xs ->
+  forall nd sk num hd, In (nd, sk, num, hd) (n_pend s) ->
+    hid_of_num (nth_node (n_net s) nd) num = Some hd /\ In hd (hn (nth_node (n_net s) nd)) /\
+    forall p, plookup p (h_qlist (host_at s nd)) <> Some hd.
+Proof.
+  intros s C nd sk num hd Hin.
+  pose proof (nrun_ninv xs (ninit caps) (init_ninv caps) C) as I. fold s in I.
+  pose proof (g_num s I _ Hin) as L. unfold p_node, p_num, p_hd in L. cbn [fst snd] in L.
+  assert (H1 : In hd (hn (nth_node (n_net s) nd))).
+  { rewrite hn_vn. eapply lookup_in. exact L. }
+  split; [exact L|]. split; [exact H1|].
+  assert (Hnd : nd < length (n_hosts s)).
+  { rewrite (g_len s I). destruct (Nat.ltb_spec nd (length (nodes (n_net s)))); auto.
+    rewrite nth_node_overflow in H1 by auto. simpl in H1. contradiction. }
+  intros p Hp. apply (x_exdisj _ _ _ (g_host s I nd Hnd) p hd Hp).
+  apply (in_pend_at _ _ Hin).
 Qed.
 
 (* ---- `cleans` is decidable (for the examples) ---------------------------------------------------------------------------------------- *)
